@@ -14,8 +14,11 @@ Quantifier: **all finite histories** `ops : List (Op P)` over the alphabet of `P
 constructor** (`new`, or — since the bulk constructors are operations of the alphabet and ignore the old state — any of
 them as the first operation; more generally from any queue satisfying the invariant), **all items and priorities**
 (`P` is any type with a linear preorder: ties are allowed).  Side conditions: closures do not change an item's identity
-(`Op.Legal`, the crate's documented requirement) and no `iter_mut` guard is leaked (`Op.isLeak`; after a leak the crate
-documents the order as unspecified until the next rebuilding operation, see `hist_run_heal` and C04).
+(`Op.Legal`, the crate's documented requirement) and no `iter_mut` guard is leaked (`Op.isLeak`): the property list itself
+sets that case apart — C10 says that after a leaked iterator "the order and even the reported length may be unspecified;
+safety may not".  The order is restored by the next rebuilding operation (`hist_run_heal`); everything that needs only
+well-formedness holds through leaks as well (C03, C04, C13, C16).  (The crate's own documentation only says that the heap
+"will be rebuilt once the `IterMut` goes out of scope".)
 
 `QInv q'` is the invariant of the kind the queue has at the end of the history (`.convert` switches kinds inside a
 history); for kind `.pq` it is `MaxQ.Inv q'.s = WF ∧ MaxHeap`.
